@@ -1198,7 +1198,7 @@ class Exec:
                 base.extend(args[0])
                 return None
         if isinstance(base, str):
-            if meth in ("lower", "upper", "strip", "startswith", "endswith", "replace", "split", "format", "join"):
+            if meth in ("lower", "upper", "strip", "startswith", "endswith", "replace", "split", "format", "join", "title", "rstrip", "lstrip", "capitalize", "isdigit"):
                 return getattr(base, meth)(*args, **kwargs)
         if isinstance(base, SymArray) and meth == "copy":
             return base
@@ -1474,6 +1474,9 @@ def _sh_sign(ex, node, x):
 def _sh_isinstance(ex, node, x, t):
     names = t if isinstance(t, tuple) else (t,)
     names = [n if isinstance(n, str) else getattr(n, "__name__", str(n)) for n in names]
+    names = [n[1] if isinstance(n, tuple) and len(n) == 2 and n[0] == "fn" else n for n in names]
+    if isinstance(x, Obj):
+        return "WORLD_TYPES" in names or "object" in names
     if "ndarray" in names and len(names) == 1:
         return isinstance(x, SymArray)
     if isinstance(x, SymArray):
